@@ -71,5 +71,5 @@ class _FailureMessageConfig(FailureMessageConfig[ExitCodeAndStderrFile]):
 
     @staticmethod
     def _stderr_contents_str(model: ExitCodeAndStderrFile) -> str:
-        with model.stderr.open() as f:
+        with model.stderr.open(errors='replace') as f:
             return std_err_contents.STD_ERR_TEXT_READER.read(f)
